@@ -6,6 +6,7 @@ import (
 	"encoding/json"
 	"fmt"
 	"io/ioutil"
+	"math/rand"
 	"os"
 	"path/filepath"
 	"regexp"
@@ -39,30 +40,31 @@ type DriftInst struct {
 
 // FamilyReport is the cached, property-independent outcome of running one family.
 type FamilyReport struct {
-	Family       string            `json:"family"`
-	Tier         string            `json:"tier"`
-	Seed         int64             `json:"seed"`
-	MCStates     int64             `json:"mc_states"`
-	MCGenerated  int64             `json:"mc_generated"`
-	MCWallS      float64           `json:"mc_wall_s"`
-	Shapes       int               `json:"shapes"`
-	Behaviours   int               `json:"behaviours"`
-	TraceLines   int               `json:"trace_lines"`
-	Accepted     bool              `json:"accepted"` // every trace line was an instance of a spec action
-	Evald        map[string]int    `json:"evald"`    // property -> lines on which its antecedent held
-	Distinct     map[string]int    `json:"distinct"` // property -> distinct behaviours among those
-	Violations   []ViolInst        `json:"violations"`
-	Drift        []DriftInst       `json:"drift"`
-	ModelViol    map[string]int    `json:"model_viol"` // clause|sig -> count (Impl => Contract failures at the design level)
-	CompileFail  map[string]string `json:"compile_fail"`
-	GenFail      map[string]string `json:"gen_fail"`
-	Unregistered []string          `json:"unregistered"`
-	Samples      []json.RawMessage `json:"samples"`
-	Bundles      map[string]json.RawMessage `json:"bundles"` // clause|sig -> replay bundle (first instance)
-	WallS        float64           `json:"wall_s"`
-	Cached       bool              `json:"cached"`
-	HarnessErr   []string          `json:"harness_errors"`
-	AltRuns      int               `json:"alt_runs"` // alternative renderings of runs (C14 / C15 / C16) executed
+	Family           string                     `json:"family"`
+	Tier             string                     `json:"tier"`
+	Seed             int64                      `json:"seed"`
+	MCStates         int64                      `json:"mc_states"`
+	MCGenerated      int64                      `json:"mc_generated"`
+	MCWallS          float64                    `json:"mc_wall_s"`
+	Shapes           int                        `json:"shapes"`
+	Behaviours       int                        `json:"behaviours"`
+	TraceLines       int                        `json:"trace_lines"`
+	Accepted         bool                       `json:"accepted"` // every trace line was an instance of a spec action
+	Evald            map[string]int             `json:"evald"`    // property -> lines on which its antecedent held
+	Distinct         map[string]int             `json:"distinct"` // property -> distinct behaviours among those
+	Violations       []ViolInst                 `json:"violations"`
+	Drift            []DriftInst                `json:"drift"`
+	ModelViol        map[string]int             `json:"model_viol"` // clause|sig -> count (Impl => Contract failures at the design level)
+	CompileFail      map[string]string          `json:"compile_fail"`
+	GenFail          map[string]string          `json:"gen_fail"`
+	Unregistered     []string                   `json:"unregistered"`
+	Samples          []json.RawMessage          `json:"samples"`
+	Bundles          map[string]json.RawMessage `json:"bundles"` // clause|sig -> replay bundle (first instance)
+	WallS            float64                    `json:"wall_s"`
+	Cached           bool                       `json:"cached"`
+	HarnessErr       []string                   `json:"harness_errors"`
+	RandomBehaviours int                        `json:"random_behaviours"` // seeded random behaviours added by the harness
+	AltRuns          int                        `json:"alt_runs"`          // alternative renderings of runs (C14 / C15 / C16) executed
 }
 
 // SessFamily describes one session family: which TLC model enumerates it.
@@ -73,22 +75,26 @@ type SessFamily struct {
 }
 
 var sessFamilies = map[string]SessFamily{
-	"empty":   {"empty", "MC_SessEmpty", []string{"C03", "C04", "C07", "C20"}},
-	"reset":   {"reset", "MC_SessReset", []string{"C05", "C07"}},
-	"echo":    {"echo", "MC_SessEcho", []string{"C08"}},
-	"refresh": {"refresh", "MC_SessRefresh", []string{"C09"}},
-	"badfrom": {"badfrom", "MC_SessBadFrom", []string{"C06"}},
-	"badto":   {"badto", "MC_SessBadTo", []string{"C06"}},
-	"genmap":  {"genmap", "MC_GenMap", []string{"C01", "C02"}},
-	"genflags":  {"genflags", "MC_GenFlags", []string{"C10"}},
-	"genselect": {"genselect", "MC_GenSelect", []string{"C12"}},
-	"genwhole":  {"genwhole", "MC_GenWhole", []string{"C18", "C03", "C02"}},
-	"genconfig": {"genconfig", "MC_GenConfig", []string{"C16"}},
-	"gendet":    {"gendet", "MC_GenDet", []string{"C14"}},
-	"gensort":   {"gensort", "MC_GenSort", []string{"C15"}},
-	"gensep":    {"gensep", "MC_GenSep", []string{"C13"}},
-	"genaddr":   {"genaddr", "MC_GenAddr", []string{"C11"}},
-	"genexcl":   {"genexcl", "MC_GenExcl", []string{"C11", "C05"}},
+	"empty":       {"empty", "MC_SessEmpty", []string{"C03", "C04", "C07", "C20"}},
+	"reset":       {"reset", "MC_SessReset", []string{"C05", "C07"}},
+	"echo":        {"echo", "MC_SessEcho", []string{"C08"}},
+	"refresh":     {"refresh", "MC_SessRefresh", []string{"C09"}},
+	"badfrom":     {"badfrom", "MC_SessBadFrom", []string{"C06"}},
+	"badto":       {"badto", "MC_SessBadTo", []string{"C06"}},
+	"genmap":      {"genmap", "MC_GenMap", []string{"C01", "C02"}},
+	"genflags":    {"genflags", "MC_GenFlags", []string{"C10"}},
+	"genselect":   {"genselect", "MC_GenSelect", []string{"C12"}},
+	"genwhole":    {"genwhole", "MC_GenWhole", []string{"C18", "C03", "C02"}},
+	"genconfig":   {"genconfig", "MC_GenConfig", []string{"C16"}},
+	"gendet":      {"gendet", "MC_GenDet", []string{"C14"}},
+	"gensort":     {"gensort", "MC_GenSort", []string{"C15"}},
+	"gensep":      {"gensep", "MC_GenSep", []string{"C13"}},
+	"genaddr":     {"genaddr", "MC_GenAddr", []string{"C11"}},
+	"boundary":    {"boundary", "MC_Boundary", []string{"C19", "nodrift"}},
+	"custom":      {"custom", "MC_Custom", []string{"C17"}},
+	"custombad":   {"custombad", "MC_CustomBad", []string{"C17"}},
+	"custombadto": {"custombadto", "MC_CustomBadTo", []string{"C17"}},
+	"genexcl":     {"genexcl", "MC_GenExcl", []string{"C11", "C05"}},
 }
 
 type vector struct {
@@ -361,6 +367,7 @@ func validateTraces(w string, tracePath string, shards int) (recs []map[string]i
 // runSessionFamily: enumerate with TLC, replay in the real code, validate the trace.
 func runSessionFamily(env *pipeline.Env, fam SessFamily, tier string, seed int64, only string) (*FamilyReport, error) {
 	start := time.Now()
+	rep0Random := 0
 	cp := cachePath("fam", fam.Name, tier, seed, true)
 	if only == "" {
 		if b, err := ioutil.ReadFile(cp); err == nil {
@@ -381,6 +388,23 @@ func runSessionFamily(env *pipeline.Env, fam SessFamily, tier string, seed int64
 	shapeByID := map[string]shapeRec{}
 	for _, s := range shapes {
 		shapeByID[s.ID] = s
+	}
+	if fam.Name == "boundary" {
+		// seeded random values of the same Go types, judged by the same trace validation
+		rng := rand.New(rand.NewSource(seed))
+		n := 40
+		if tier == "thorough" {
+			n = 1500
+		}
+		for _, s := range shapes {
+			rv, err := randomBoundary(s, rng, n)
+			if err != nil {
+				return nil, err
+			}
+			vecs = append(vecs, rv...)
+		}
+		sort.SliceStable(vecs, func(i, j int) bool { return vecs[i].Shape < vecs[j].Shape })
+		rep0Random = len(shapes) * n
 	}
 	used := map[string]bool{}
 	var behs []behaviour
@@ -450,6 +474,7 @@ func runSessionFamily(env *pipeline.Env, fam SessFamily, tier string, seed int64
 	})
 	rep.Behaviours = len(behs)
 	rep.Shapes = len(used)
+	rep.RandomBehaviours = rep0Random
 	// generate + compile every used shape with the real generator
 	var variants []pipeline.Variant
 	seenRun := map[string]bool{}
@@ -573,7 +598,7 @@ func runSessionFamily(env *pipeline.Env, fam SessFamily, tier string, seed int64
 				if _, ok := rep.Bundles[k]; !ok {
 					rep.Bundles[k] = mustJSON(map[string]interface{}{
 						"family": fam.Name, "tier": tier, "seed": seed, "behaviour": id, "violation": vi,
-						"vector": map[string]interface{}{"id": b.ID, "key": b.Key, "meta": b.Meta, "steps": b.Steps},
+						"vector":     map[string]interface{}{"id": b.ID, "key": b.Key, "meta": b.Meta, "steps": b.Steps},
 						"real_trace": behLines[id]})
 				}
 			}
